@@ -348,12 +348,9 @@ def check_pauli(k: K):
         args = {"ind": s, "is_sparse": True}
         k.case("pauli", args, True, "pauli/sparselist")
         res = k.L.ask("c17_int", {"kind": "pauli", "ind": s})
-        if sp.issparse(P) and list(P.shape) == [2, 2] and res["shape"] != [2, 2]:
-            # np.kron on scipy sparse arrays multiplies them as 0-d objects: the result is the 2x2 matrix product/elementwise product, not the tensor product
-            k.bad("sparse list form returns a 2 x 2 array instead of the 2^n x 2^n tensor product", "pauli", args, impl=dense(P), model_shape=res["shape"],
-                  theorem="pauli_trace_orthogonal", kind="sparse-list-not-kron")
-        else:
-            k.cmp_int("pauli", args, P, res, "pauli_trace_orthogonal")
+        if not sp.issparse(P):
+            k.bad("is_sparse=True did not return a sparse array", "pauli", args, theorem="pauliString_trace_orthogonal")
+        k.cmp_int("pauli", args, P, res, "pauliString_trace_orthogonal")
 
 
 def check_gell_mann(k: K):
@@ -1000,14 +997,7 @@ SECTIONS = [check_clock_shift_fourier, check_gen_pauli, check_pauli, check_gell_
             check_horodecki, check_mub, check_misc]
 
 
-def install_matchers(ctx):
-    ctx.matchers["c17-w-state-rounding"] = lambda info: info.get("function") == "w_state" and info.get("kind") == "rounded-to-4-decimals"
-    ctx.matchers["c17-pauli-sparse-list"] = lambda info: info.get("function") == "pauli" and info.get("kind") == "sparse-list-not-kron"
-    ctx.matchers["c17-werner-list-index"] = lambda info: info.get("function") == "werner" and info.get("kind") == "alpha-index-shift"
-
-
 def run(ctx, model_ok=True):
-    install_matchers(ctx)
     k = K(ctx)
     for sec in SECTIONS:
         sec(k)
@@ -1017,7 +1007,6 @@ def run(ctx, model_ok=True):
 
 def replay(ctx, rec):
     """re-run the section that owns the recorded function (cases are deterministic enumerations)"""
-    install_matchers(ctx)
     k = K(ctx)
     fn = rec.get("function", "")
     owner = {
